@@ -224,7 +224,7 @@ _HAS_FREE_HEADER = re.compile(r"-[*]-\s*(f90|f95|f03|f08)\s*-[*]-", re.I).search
 _HAS_FIX_HEADER = re.compile(r"-[*]-\s*fix\s*-[*]-", re.I).search
 _HAS_PYF_HEADER = re.compile(r"-[*]-\s*pyf\s*-[*]-", re.I).search
 
-_FREE_FORMAT_START = re.compile(r"[^c*!]\s*[^\s\d\t]", re.I).match
+_FREE_FORMAT_START = re.compile(r"[^c*!][\s\d]*[^\s\d]", re.I).match
 
 
 def get_source_info_str(source, ignore_encoding=True):
